@@ -1,6 +1,7 @@
 import BoltonsVerif.C15.Proofs
 import BoltonsVerif.C15.RoundingCarrier
 import BoltonsVerif.C15.SessionProofs
+import BoltonsVerif.C15.B64Proofs
 /-
 C15 — property theorems for the model of `backoff_iter` / `backoff`.
 
@@ -548,6 +549,81 @@ theorem accepted_is_some_draw (b j w : Rat) (hb : 0 < b) (hj : j ≠ 0)
 
 end Exact
 
+/-! ### IEEE doubles
+
+`B64` (B64.lean) is a natural-number model of the non-negative binary64 numbers with the
+correctly rounded product (round to nearest, ties to even; subnormals, overflow to `inf`).  The
+driver runs the model of `backoff_iter` on it (instance `D`) and every value agrees bit for bit
+with CPython, so `B64.mul` is what `cur *= factor` computes.  The order layer's one assumption
+about the arithmetic - a delay times a factor ≥ 1 is not smaller - is PROVED for it
+(`b64_mul_ge`), hence every order-layer clause holds for the doubles the code computes, from
+the statement's plain hypotheses. -/
+section Doubles
+
+/-- rounding never undoes growth: a finite double times a factor ≥ 1.0 is a double that is not
+    smaller (also when the exact product is not representable, is subnormal, or overflows) -/
+theorem b64_mul_ge (x f : B64) (hf : (1 : B64) ≤ f) (hx : x.bits < B64.INF) : x ≤ x * f :=
+  B64.infl f hf x hx
+
+/-- the order-layer hypotheses follow from the statement's plain ones over `B64`
+    (`0 ≤ start` holds for every element of the carrier) -/
+theorem b64_validParams (p : Params B64) (h1 : p.start ≤ p.stop) (hs : 0 < p.stop)
+    (hfin : p.stop.bits < B64.INF) (hf : 1 ≤ p.factor) : ValidParams p :=
+  ⟨{ B64.laws p.factor p.stop hf hs hfin with start_nonneg := Nat.zero_le _, start_le_stop := h1 }, hf⟩
+
+/-- all shape clauses at once for doubles: first value `start`; 0 is followed by `min(1, stop)`;
+    never decreasing; never above `stop`; a non-zero value is followed by ONE correctly rounded
+    multiplication by `factor`, capped at `stop`; once at `stop`, always at `stop` -/
+theorem b64_shape (factor stop start : B64) (h1 : start ≤ stop) (hs : 0 < stop)
+    (hfin : stop.bits < B64.INF) (hf : 1 ≤ factor) :
+    seqAt factor stop start 0 = start ∧
+    (start = 0 → seqAt factor stop start 1 = if stop < 1 then stop else 1) ∧
+    (∀ i, seqAt factor stop start i ≤ seqAt factor stop start (i + 1)) ∧
+    (∀ i, seqAt factor stop start i ≤ stop) ∧
+    (∀ i, seqAt factor stop start i ≠ 0 →
+      seqAt factor stop start (i + 1) =
+        if stop < seqAt factor stop start i * factor then stop else seqAt factor stop start i * factor) ∧
+    (∀ i j, seqAt factor stop start i = stop → i ≤ j → seqAt factor stop start j = stop) := by
+  have hv : Valid factor stop start :=
+    { B64.laws factor stop hf hs hfin with start_nonneg := Nat.zero_le _, start_le_stop := h1 }
+  refine ⟨rfl, ?_, fun i => monotone hv (Nat.le_succ i), fun i => (le_stop hv i).2,
+    fun i hne => grows_by_factor_until_cap hv i hne, fun i j h hij => stays_at_stop hv h hij⟩
+  intro h; subst h
+  exact zero_then_min_one_stop factor stop
+
+/-- the default count on doubles: the call raises ValueError (only when a step makes no progress:
+    rounding absorbed the factor on a subnormal), or - model artefact - runs out of fuel, or yields
+    the delays at positions `0 … n-1` where the last one is `stop` -/
+theorem b64_default_count_last_is_stop (p : Params B64) (h1 : p.start ≤ p.stop) (hs : 0 < p.stop)
+    (hfin : p.stop.bits < B64.INF) (hf : 1 ≤ p.factor) (hj : p.jitter = 0) (hc : p.count = .dflt)
+    (fuel : Nat) (r : Nat → B64) :
+    backoffIter fuel r p = .valueError ∨ backoffIter fuel r p = .fuelOut ∨
+    ∃ n, 1 ≤ n ∧ backoffIter fuel r p = .finite ((List.range n).map (seqAt p.factor p.stop p.start)) ∧
+      ((List.range n).map (seqAt p.factor p.stop p.start)).getLast? = some p.stop := by
+  have hp := b64_validParams p h1 hs hfin hf
+  rcases default_count_outcome hp (Or.inl hj) hc fuel r with h | h | ⟨n, hn, hout, _, hlast⟩
+  · exact Or.inl h
+  · exact Or.inr (Or.inl h)
+  · have e : (List.range n).map (yieldAt r p) = (List.range n).map (seqAt p.factor p.stop p.start) := by
+      apply List.map_congr_left
+      intro i _
+      simp only [yieldAt, hj, emit_off]
+    rw [e] at hout hlast
+    exact Or.inr (Or.inr ⟨n, hn, hout, hlast hj⟩)
+
+/-- exactly `count` values on doubles, the i-th being the delay at position `i` -/
+theorem b64_length_eq_count (p : Params B64) (h1 : p.start ≤ p.stop) (hs : 0 < p.stop)
+    (hfin : p.stop.bits < B64.INF) (hf : 1 ≤ p.factor) (hj : p.jitter = 0) (k : Int) (hk : 0 ≤ k)
+    (hc : p.count = .num k) (fuel : Nat) (r : Nat → B64) :
+    ∃ vals, backoffIter fuel r p = .finite vals ∧ vals.length = k.toNat ∧
+      ∀ i, i < k.toNat → vals[i]? = some (seqAt p.factor p.stop p.start i) := by
+  obtain ⟨vals, h1', h2, h3⟩ := length_eq_count (b64_validParams p h1 hs hfin hf) (Or.inl hj) k hk hc fuel r
+  refine ⟨vals, h1', h2, fun i hi => ?_⟩
+  rw [h3 i hi]
+  simp only [yieldAt, hj, emit_off]
+
+end Doubles
+
 /-! ### sessions: several calls, the caller changing the lists it was handed, generators advanced
 in any interleaving.  Every clause above is about ONE call; these theorems say that a call made
 in the middle of any history is that one call: nothing a caller did before (other calls with
@@ -718,6 +794,27 @@ example : (backoff 10 (fun _ => 0) (acceptCount 10
 example : (backoff 10 (fun _ => 0) (acceptCount 10
       ({ start := 1, stop := 10, factor := 2, count := .dflt, jitter := 0 } : Params Rat) 3)).vals?
     = some [1, 2, 4, 8, 10] := by decide +kernel
+
+-- doubles (B64): backoff(1.0, 10.0) == [1.0, 2.0, 4.0, 8.0, 10.0] by bit pattern …
+example : (backoff 10 (fun _ => 0)
+    ({ start := ⟨0x3ff0000000000000⟩, stop := ⟨0x4024000000000000⟩, factor := ⟨0x4000000000000000⟩,
+       count := .dflt, jitter := 0 } : Params B64)).vals?
+    = some [⟨0x3ff0000000000000⟩, ⟨0x4000000000000000⟩, ⟨0x4010000000000000⟩, ⟨0x4020000000000000⟩,
+            ⟨0x4024000000000000⟩] := by decide +kernel
+-- … the repaired float-edge defect: backoff(1.0, 10.000000000000002, factor=10.0) ends at stop (3 values) …
+example : (backoff 10 (fun _ => 0)
+    ({ start := ⟨0x3ff0000000000000⟩, stop := ⟨0x4024000000000001⟩, factor := ⟨0x4024000000000000⟩,
+       count := .dflt, jitter := 0 } : Params B64)).vals?
+    = some [⟨0x3ff0000000000000⟩, ⟨0x4024000000000000⟩, ⟨0x4024000000000001⟩] := by decide +kernel
+-- … inexact products: 0.1 * 3.0 rounds UP to 0.30000000000000004, and 5e-324 * 1.5 rounds to 1e-323 (ties to even)
+example : ((⟨0x3fb999999999999a⟩ : B64) * ⟨0x4008000000000000⟩ = ⟨0x3fd3333333333334⟩) ∧
+    ((⟨1⟩ : B64) * ⟨0x3ff8000000000000⟩ = ⟨2⟩) ∧ ((⟨1⟩ : B64) * ⟨0x3ff4000000000000⟩ = ⟨1⟩) := by decide +kernel
+-- … overflow: 1e308 * 10.0 = inf, which the cap brings back to stop
+example : (⟨0x7fe1ccf385ebc8a0⟩ : B64) * ⟨0x4024000000000000⟩ = ⟨B64.INF⟩ := by decide +kernel
+example : ValidParams
+    ({ start := ⟨1⟩, stop := ⟨0x7fefffffffffffff⟩, factor := ⟨0x3ff8000000000000⟩,
+       count := .dflt, jitter := 0 } : Params B64) :=
+  b64_validParams _ (by decide) (by decide) (by decide) (by decide)
 
 -- a session: the caller uses up the first result of backoff(1, 10); the second call with the very
 -- same arguments is complete again, and a third result is untouched by changes to the second
